@@ -568,6 +568,48 @@ fn c03(r: &mut Rng, thorough: bool, w: W) -> std::io::Result<()> {
 
 fn c05(r: &mut Rng, thorough: bool, w: W) -> std::io::Result<()> {
     let n = if thorough { 12_000 } else { 350 };
+    // the shortest messages there are (every cut then lies close to every header boundary, and in
+    // storage mode fewer than 16 bytes are missing while the cut is still inside the storage header)
+    for storage in [false, true] {
+        for big_endian in [false, true] {
+            for shape in 0..5 {
+                let (payload, ext): (PayloadContent, Option<ExtendedHeaderConfig>) = match shape {
+                    0 => (PayloadContent::NonVerbose(7, vec![]), None),
+                    1 => (PayloadContent::NonVerbose(7, vec![1]), None),
+                    2 => (
+                        PayloadContent::Verbose(vec![]),
+                        Some(ExtendedHeaderConfig { message_type: MessageType::Log(LogLevel::Info), app_id: "A".into(), context_id: "".into() }),
+                    ),
+                    3 => (
+                        PayloadContent::ControlMsg(ControlType::Request, vec![]),
+                        Some(ExtendedHeaderConfig { message_type: MessageType::Control(ControlType::Request), app_id: "AB".into(), context_id: "CTX1".into() }),
+                    ),
+                    _ => (
+                        PayloadContent::NonVerbose(9, vec![]),
+                        Some(ExtendedHeaderConfig { message_type: MessageType::Log(LogLevel::Warn), app_id: "".into(), context_id: "C".into() }),
+                    ),
+                };
+                let sh = storage.then(|| StorageHeader {
+                    timestamp: DltTimeStamp { seconds: 1, microseconds: 2 },
+                    ecu_id: "E".into(),
+                });
+                let m = Message::new(
+                    MessageConfig {
+                        version: 1,
+                        counter: 3,
+                        endianness: if big_endian { Endianness::Big } else { Endianness::Little },
+                        ecu_id: None,
+                        session_id: None,
+                        timestamp: None,
+                        payload,
+                        extended_header_info: ext,
+                    },
+                    sh,
+                );
+                writeln!(w, "CUTALL {}", p_message(&m))?;
+            }
+        }
+    }
     for _ in 0..n {
         let m = message(r, &MsgOpts { storage: None, big: false, max_args: 4 });
         writeln!(w, "CUTALL {}", p_message(&m))?;
@@ -1112,10 +1154,37 @@ fn damage(r: &mut Rng, x: &[u8]) -> Vec<u8> {
     if v.is_empty() {
         return v;
     }
-    match r.below(8) {
+    match r.below(10) {
         0 | 1 | 2 => {
             let c = r.below(v.len() as u64) as usize;
             v.truncate(c);
+        }
+        8 | 9 => {
+            // attribute names: misspell one keeping its length, prefix it, or put another attribute
+            // (of the same or another length) in front of it
+            let s = String::from_utf8_lossy(&v).into_owned();
+            let names = [" ID=\"", " ID-REF=\"", "BASE-DATA-TYPE=\""];
+            let p = *r.pick(&names);
+            let occ: Vec<usize> = s.match_indices(p).map(|(i, _)| i).collect();
+            if !occ.is_empty() {
+                let i = *r.pick(&occ);
+                let repl = match (p, r.below(5)) {
+                    (" ID=\"", 0) => " IE=\"".to_string(),
+                    (" ID=\"", 1) => " NO=\"7\" ID=\"".to_string(),
+                    (" ID=\"", 2) => " xy:ID=\"".to_string(),
+                    (" ID=\"", 3) => " IDX=\"1\" ID=\"".to_string(),
+                    (" ID-REF=\"", 0) => " ID_REF=\"".to_string(),
+                    (" ID-REF=\"", 1) => " ABCDEF=\"q\" ID-REF=\"".to_string(),
+                    (" ID-REF=\"", 2) => " a:ID-REF=\"".to_string(),
+                    ("BASE-DATA-TYPE=\"", 0) => "BASE_DATA-TYPE=\"".to_string(),
+                    ("BASE-DATA-TYPE=\"", 1) => "CASE-DATA-TYPE=\"x\" BASE-DATA-TYPE=\"".to_string(),
+                    _ => format!(" Z=\"\"{}", p),
+                };
+                let mut t = s[..i].to_string();
+                t.push_str(&repl);
+                t.push_str(&s[i + p.len()..]);
+                v = t.into_bytes();
+            }
         }
         3 => {
             // delete an element or attribute: cut between two '<' or remove an attribute value
